@@ -197,7 +197,7 @@ def check(chk, repo):
     chk.floor("methods scanned for non-instance state", n, 100)
     m = check_registry_picklable(rep, repo)
     from ..common import check_model_premises
-    check_model_premises(rep, repo)
+    check_model_premises(rep, repo, purity=False)
     chk.floor("registry values checked for pickling by reference", m, 40)
     chk.undecided.append("equality of predictions of the loaded object as a run-time fact (follows from whole-state installation)")
     chk.assumptions += ["pickle stores instance __dict__ recursively and functions by qualified name",
